@@ -27,4 +27,24 @@ PROPS = {
                   "regenerated": ["bootstrap.pl op/3 directives"], "observed_only": ["Parser (probe)", "WriteCompound (probe)"]},
         assumptions=["pattern variables of current_op/3 calls are pairwise distinct (the model matches argument-wise)"],
     ),
+    "C11": dict(
+        level_text="Proof: FindAll/collectionOf (bagof, setof) with renamedCopy, the free-variable computation of variable.go, variant, the grouping loop, the witness unifications and Env.set are modelled in Lean over an ARBITRARY solution sequence of the goal (the model takes the solutions as input, so the claim does not depend on the execution model). Kernel-checked for all inputs: findall returns the renamed copies of the solutions in order, [] if none, sharing no variable with the call (C11_findall); the computed witness variables are exactly the ISO free-variable set of Template^Goal (C11_free_vars); variant is an equivalence and coincides with ISO 7.1.6.1 'equal up to a one-to-one renaming' (variant_equiv; false on the pinned tree, D11: variant_symm_witness / C11_bagof_partition_witness, repaired in the repo); the groups are exactly the classes of solutions under variant-of-witness, each solution exactly once, solution order kept, no solution => failure (C11_bagof_partition); setof lists are strictly ascending and duplicate-free with the elements of their group (C11_setof). The model is tied to the Go code by the c11.collect stream (real interpreter vs model, plus an independent executable ISO oracle).",
+        level_note="Trusted: Lean kernel; the hand-written model of FindAll/collectionOf/variant/renamedCopy/newFreeVariablesSet/Env.set/unify (differential runs, not proved); harness canonicalisation; the solution sequence of the goal is taken from the real interpreter (enumerated directly, not through findall); sort.Slice returns a sorted permutation; the standard order used by Env.set is a parameter of C11_setof (its laws are C08's business). Terms are resolved in the call-time bindings before they enter the model. Cyclic bindings (no occurs check) are outside the claim.",
+        technique="Lean 4 proofs about an executable model (mutual structural induction over terms, list partition lemmas) + model/implementation/specification correspondence on generated fact tables",
+        lean_module="PrologVerif.Properties.C11",
+        ns="PrologVerif.C11",
+        streams=[dict(name="c11.collect", quick=6000, thorough=60000)],
+        rule="one findall/bagof/setof call per case over a generated fact table (1-2 predicates, 0-10 facts; columns ground, partially bound, variant of each other, non-linear like t(1,C,C)); goals: fact calls, conjunctions, disjunctions, member/2, =/2, \\+, true/fail, goals raising errors (at once or after some solutions), nested findall/bagof/setof; templates sharing any subset of variables with the goal; 0-3 ^-prefixes over goal variables, other variables, compound or ground terms, also reached through call-time bindings; Instances unbound, partial, closed lists of variables or constants, non-lists, or sharing one variable with the call; generated from one PRNG (VERIF_SEED); non-trivial = bagof/setof with at least 2 groups or a group of at least 2 solutions whose witness contains free variables, findall with at least 2 solutions; distinct = distinct case text",
+        trusted=[
+            "modelled (hand-written, correspondence-checked): engine/builtin.go FindAll, BagOf, SetOf, collectionOf, variant, iteratedGoalTerm, renamedCopy; engine/variable.go newVariableSet, newExistentialVariablesSet, newFreeVariablesSet; engine/compound.go Env.set, tuple; engine/env.go Resolve, unify (no occurs check) as used by collectionOf; the ListIterator check of Instances; the Compare methods on integers, atoms, variables, compounds",
+            "input of the model, taken from the real interpreter on every case: the solution sequence of the (iterated) goal and the error it raises, enumerated directly with engine.Call (not through findall)",
+            "specification oracle (Spec/Collect.lean judge): classes of witnesses by canonical form, witness unification in closed form, textbook unification with occurs check for Instances, variable order left open for setof",
+            "not modelled: Go's term representations (list, partial, charList, codeList) inside renamedCopy; floats and streams in the standard order; resource errors of makeSlice",
+        ],
+        modelled={"hand_modelled": ["FindAll", "BagOf", "SetOf", "collectionOf", "variant", "iteratedGoalTerm", "renamedCopy", "newVariableSet", "newExistentialVariablesSet", "newFreeVariablesSet", "Env.set", "tuple", "Env.Resolve", "Env.unify"],
+                  "regenerated": [], "observed_only": ["Call (solution sequence of the goal)", "ListIterator"]},
+        assumptions=["the environment at the call is acyclic and no cyclic binding is created by the call (cases where the real interpreter builds a cyclic term are printed as CYCLIC and not judged)",
+                     "sort.Slice returns a sorted permutation of its input",
+                     "no floats, streams or custom atomic terms in the collected terms (standard order on them is C08)"],
+    ),
 }
